@@ -35,6 +35,8 @@ func init() {
 			"on the planning side a field's name and alias are taken from the same operation field wherever a response field is built, the duplicate check uses the same (name, alias) identity as the construction, fragment fields are de-duplicated by the response key, and the merge path of resolver / @requires calls ends in the response key; every call kind is compiled, and a call is merged by path exactly when its plan carries a response path; " +
 			"the code reachable from DataSource.Load never stores into plan-owned memory (no assignment through plan pointers, no append onto a slice that aliases the plan), so concurrent requests on one cached plan cannot change each other's shape; both consumers of the plan test the list wrapper before the optional-scalar wrapper (a nullable scalar list satisfies both predicates). It does not decide the value-level equality of responses under reformulation.",
 		Mutants: []Mutant{
+			{Name: "field resolver context read without a kind test (reverts the F48 fix)", File: "v2/pkg/engine/datasource/grpc_datasource/execution_plan.go", Rule: "C20-R12", Key: "rpcPlanningContext.getFieldsFromFieldResolverDirective/partial-value-accessor-under-kind-test",
+				Old: "\tif val.Kind != ast.ValueKindString {\n\t\treturn nil, fmt.Errorf(\"context directive argument must be a string, got %s\", val.Kind)\n\t}\n", New: ""},
 			{Name: "root fields leave without popping the field path (seeded change C20-21)", File: "v2/pkg/engine/datasource/grpc_datasource/execution_plan_visitor.go", Rule: "C20-R11", Key: "rpcPlanVisitor.LeaveField/pops-field-path-once",
 				Old: "func (r *rpcPlanVisitor) LeaveField(ref int) {\n\tr.fieldPath = r.fieldPath.RemoveLastItem()\n\tinRootField := r.walker.InRootField()\n", New: "func (r *rpcPlanVisitor) LeaveField(ref int) {\n\tinRootField := r.walker.InRootField()\n\tif !inRootField {\n\t\tr.fieldPath = r.fieldPath.RemoveLastItem()\n\t}\n"},
 			{Name: "enclosing type resolved in the operation document by the gRPC plan visitor", File: "v2/pkg/engine/datasource/grpc_datasource/execution_plan_visitor.go", Rule: "C20-R10", Key: "rpcPlanVisitor.EnterField/Node.NameString#2",
@@ -103,6 +105,10 @@ func runC20(r *fw.Run) {
 		return
 	}
 	defer c20LeaveFieldPopsPath(r)
+	defer func() {
+		r.Rule("C20-R12", "the gRPC planner calls the partial value accessors (ast.Document.ValueContentBytes/String, which panic for five of the nine value kinds) only after a test of the value's kind that admits their domain")
+		partialValueAccessorsGuarded(r, "C20-R12", []string{"grpcds"}, 1)
+	}()
 	r.Rule("C20-R10", "in every gRPC planner visitor a node is looked up only in the document it came from: a definition node (Walker.EnclosingTypeDefinition, TypeDefinitions, a lookup in the definition) is never handed to a method of the operation document, nor the other way round")
 	documentProvenance(r, "C20-R10", []string{"grpcds"}, 11)
 	r.Assume = append(r.Assume,
